@@ -539,7 +539,7 @@ fn gen_fm_doc(r: &mut Rng, corpus: &Corpus) -> (String, String) {
     }
     match r.below(8) {
         0 => {}
-        1 => s.push_str("text"),
+        1 => s.push_str(r.ps(&["text", "    indented code\n\ntext\n", "\tcode\n", "  - item\n", "   three spaces\n", " \nx\n"])),
         2 => s.push_str(&format!("b{}{}{}c{}", eol(r), d, r.ps(&["\r\n", "\n"]), eol(r))), // a later delimiter line
         3 => s.push_str(&format!("{}\nb\n{}\n", d, d)),
         _ => {
